@@ -71,7 +71,7 @@ def enc_value(kid, typ, val):
     if k == "R":
         import struct
 
-        return struct.pack("<f" if w == 4 else "<d", val)
+        return struct.pack("<f" if w == 4 else "<d", float(val))
     if k == "X":
         assert len(val) == w
         return bytes(val)
@@ -348,7 +348,11 @@ def value_strategy(typ):
         v = codec.value_of(typ, raw)
         return not (isinstance(v, float) and math.isnan(v))
 
-    return layout.raw_for(typ).filter(ok).map(lambda raw: codec.value_of(typ, raw))
+    base = layout.raw_for(typ).filter(ok).map(lambda raw: codec.value_of(typ, raw))
+    if typ[0] == "R":
+        # a Python int is a legal value for a float key (it is encoded as that float)
+        return st.one_of(base, st.integers(-10 ** 6, 10 ** 6), st.sampled_from([50, 1, -3, 255, 2 ** 24]))
+    return base
 
 
 def run_shard(spec, ctx, acc):
